@@ -680,10 +680,15 @@ func vc11HTTPTerm(rig *vc11Rig, c *vc11Case, o *vc11Obs) string {
 	}
 	v3, _ := url.ParseQuery(rawq)
 	addp := "None"
+	impOK := c.ImpOK
 	if ap, err := api.AddParamsFromQuery(v3); err == nil {
 		o2 := ap.PinOptions
 		o2.Mode = api.PinModeRecursive // single.New
 		addp = fmt.Sprintf("(Some (%s, %s))", vc11S(vc11Opts(o2, fuzzy)), cqBool(ap.StreamChannels))
+		if ap.NoCopy {
+			// the go-unixfs importer refuses nocopy for content that is not a file with a path or URL (a multipart upload never is)
+			impOK = false
+		}
 	}
 	// status filter
 	fs := vals.Get("filter")
@@ -727,7 +732,7 @@ func vc11HTTPTerm(rig *vc11Rig, c *vc11Case, o *vc11Obs) string {
 	}
 	reqT := fmt.Sprintf("mk_rreq %s %s %s %s", vc11S(c.Method), vc11S(c.Path), vc11QVals(vals), cqBool(c.Preflight && c.Method == "OPTIONS"))
 	envT := fmt.Sprintf("mk_renv %s %s %s %s %s %s %s %s %s %s %s %d %s %s %s", vc11CredsTerm(rig, c.Creds), vc11BasicAuth(c),
-		cqBool(vc11CleanPath(c.Path) != c.Path), cids, peers, paths, popts, addp, tfilter, cqBool(pf != api.BadType), bodyT, mp, cqBool(c.ImpOK), vc11S(root), vc11FailsTerm(c.Fails))
+		cqBool(vc11CleanPath(c.Path) != c.Path), cids, peers, paths, popts, addp, tfilter, cqBool(pf != api.BadType), bodyT, mp, cqBool(impOK), vc11S(root), vc11FailsTerm(c.Fails))
 	obsT := fmt.Sprintf("mk_robs %s %d %d %s", vc11CallsTerm(o.Calls), o.Status, o.NDocs, cqBool(o.SErr))
 	return fmt.Sprintf("CHttp (%s)\n   (%s)\n   %s (%s)", reqT, envT, cqBool(c.Cmp), obsT)
 }
